@@ -285,7 +285,7 @@ fn main() {
     let stats = explore_cases(ctx, &cases, opts, &c03_extra);
     guard(&stats, 3, false);
     if stats.get("verdicts_silent") == 0 || stats.get("verdicts_failed") == 0 {
-        machinery("vacuous: verdicts never differed");
+        vacuous("vacuous: verdicts never differed");
     }
     let mut cov = coverage(
         ctx,
